@@ -43,6 +43,10 @@ if os.path.exists(cj):
     c = json.load(open(cj))
     d = json.load(open("known_findings.json"))
     for f in d["findings"]:
+        for prop, sub, status, patch in c.get("overrides", []):
+            if f["property"] == prop and sub in f["key"] and f.get("status") != status:
+                f["status"] = status
+                f.setdefault("line", "fixed: property=%s COMMIT %s" % (prop, f.get("description", "")[:240]))
         if f.get("status") != "fixed":
             continue
         for prop, sub, patch in c["rules"]:
